@@ -247,7 +247,8 @@ func onResourceRuleUpdate(res string, rawResRules []*Rule) (err error) {
 	}
 	tcMux.Unlock()
 
-	currentRules[res] = rawResRules
+	// keep a private copy: the caller may reuse its slice for the next load, which is compared against this one
+	currentRules[res] = append(make([]*Rule, 0, len(rawResRules)), rawResRules...)
 
 	logging.Debug("[HotSpot onResourceRuleUpdate] Time statistic(ns) for updating hotspot param flow rules", "timeCost", util.CurrentTimeNano()-start)
 	logging.Info("[HotSpot] load resource level hotspot param flow rules", "resource", res, "validResRules", validResRules)
